@@ -191,11 +191,22 @@ fn replay_one(rep: &mut Report, k: u64, b: &Value) {
                 || r["cells"].as_array().unwrap().iter().any(|c| c["n"].as_u64() != Some(1) || c["vt"] == "")
         });
     rep.case(&b["tokens"], nontrivial);
-    let table = table_from_tokens(&b["tokens"], "T");
-    // every 5th file carries decoy tables before and after and is deflated
+    let mut table = table_from_tokens(&b["tokens"], "T");
+    let pw = ws_text(b["pw"].as_str().unwrap_or(""));
+    table.pretty = pw.to_string();
+    // every 5th file carries decoy tables before and after (pretty-printed like the table under
+    // test, plus a named range) and is deflated
     let with_decoys = k % 5 == 0;
     let doc = if with_decoys {
-        OdsDoc { tables: vec![decoy("A"), table, decoy("Z")], ..OdsDoc::default() }
+        let (mut a, mut z) = (decoy("A"), decoy("Z"));
+        a.pretty = pw.to_string();
+        z.pretty = pw.to_string();
+        OdsDoc {
+            tables: vec![a, table, z],
+            named: vec![("N1".into(), "$A.$C$3".into(), true), ("N2".into(), "1+1".into(), false)],
+            pretty_named: pw.to_string(),
+            ..OdsDoc::default()
+        }
     } else {
         OdsDoc::single(table)
     };
@@ -280,6 +291,10 @@ fn cell_tok(k: &str, n: u64, x: bool, v: Option<&ValPick>) -> Value {
             json!({"k": "c", "n": n, "x": x, "vt": v.vt, "lex": v.lex, "canon": canon, "form": v.form, "fm": v.fm})
         }
     }
+}
+
+fn ws_tok(name: &str) -> Value {
+    json!({"k": "ws", "n": 0, "x": false, "vt": "", "lex": name, "canon": "", "form": "", "fm": ""})
 }
 
 /// one random physical table; returns (rows, bounding-box height, width) of what it denotes
@@ -384,11 +399,36 @@ pub fn drive(args: &Args) -> i32 {
         if h.saturating_mul(w) > 3_000_000 {
             continue; // the reader materialises the dense rectangle: resource bound of the driver
         }
+        // every second table is "pretty printed": whitespace text in front of rows, around text:p
+        // and between some cell elements
+        let pw = if run % 2 == 1 { ["nl", "nl2", "crlf", "sp"][rng.gen_range(0..4)] } else { "" };
+        let rows: Vec<Value> = if pw.is_empty() {
+            rows
+        } else {
+            rows.into_iter()
+                .map(|mut r| {
+                    let mut cells = Vec::new();
+                    for c in r["cells"].as_array().unwrap() {
+                        if rng.gen_bool(0.5) {
+                            cells.push(ws_tok(["nl2", "sp", "tab", "crlf"][rng.gen_range(0..4)]));
+                        }
+                        cells.push(c.clone());
+                    }
+                    if rng.gen_bool(0.5) {
+                        cells.push(ws_tok("nl"));
+                    }
+                    r["cells"] = Value::Array(cells);
+                    r
+                })
+                .collect()
+        };
         let tokens = Value::Array(rows);
-        let doc = OdsDoc::single(table_from_tokens(&tokens, "T"));
-        let ev = match observe(doc.to_bytes(run % 2 == 0), "T", None) {
-            Ok(o) => json!({"e": "table", "run": run, "tokens": tokens, "v": o.v, "f": o.f}),
-            Err(m) => json!({"e": "table", "run": run, "tokens": tokens, "error": m}),
+        let mut table = table_from_tokens(&tokens, "T");
+        table.pretty = ws_text(pw).to_string();
+        let doc = OdsDoc::single(table);
+        let ev = match observe(doc.to_bytes(run % 4 < 2), "T", None) {
+            Ok(o) => json!({"e": "table", "run": run, "pw": pw, "tokens": tokens, "v": o.v, "f": o.f}),
+            Err(m) => json!({"e": "table", "run": run, "pw": pw, "tokens": tokens, "error": m}),
         };
         writeln!(out, "{}", ev).unwrap();
         run += 1;
